@@ -427,17 +427,6 @@ def is_end_tag(t):
     return t.startswith(';') and len(t) > 1
 
 
-def kf02d(sk):
-    """the `;` that is the whole body of a `while` is dropped: it is directly followed by `}`, or nothing but
-    braces and further statement ends follow until the end of the output"""
-    for i, t in enumerate(sk):
-        if t == ';body:While':
-            rest = sk[i + 1:]
-            if (rest and rest[0] == '}') or all(x in LAYOUT_TAGS or is_end_tag(x) for x in rest):
-                return True
-    return False
-
-
 def kf02e(sk):
     """a statement's `;` (not an empty statement's) after which only braces and statement ends follow until the end
     of the output, the first brace being a `{`: the `;` is dropped although a `{` comes next"""
@@ -498,8 +487,8 @@ def classify(r):
         if DEC_INT.match(a) and b == '.':
             out.add('KF-01')            # decimal integer literal directly followed by the `.` of a member access
         if r.mode == 'minify':
-            if a == '/' and is_regex_frag(b):
-                out.add('KF-02a')       # division operator directly followed by a regular expression literal
+            # (KF-02a `/` directly before a regex literal and KF-02d the dropped body `;` of `while` are FIXED in
+            #  /repo, commits 9cebc23 and c249e7a: a return of either is an ordinary violation, not a class)
             if is_regex_frag(a) and b[:1] and (is_id_part(b[0])):
                 out.add('KF-02b')       # regular expression literal directly followed by in / instanceof
             if a[:1].isdigit() and a[-1:] == '.' and is_id_part(b[0]):
@@ -512,8 +501,6 @@ def classify(r):
             sk = skeleton(r.tree)
         except Exception:
             sk = []
-        if kf02d(sk):
-            out.add('KF-02d')
         if kf02e(sk):
             out.add('KF-02e')
     if r.mode == 'pretty' and r.wc:
@@ -710,7 +697,7 @@ for _f in EDGE_FORMS:
             continue
         EDGE.append(_f.replace('%s', _o))
 
-FIXED = EDGE + [
+FIXED = [
     '', ';', 'a;', 'a', '{}', '{a;b}', 'var a;', 'var a = 1, b;', 'x = (a, b);', 'x = a ? b : c;', 'if (a) b;', 'if (a) b; else c;',
     'if (a) {} else if (b) {} else {}', 'for (;;) ;', 'for (a; b; c) d;', 'for (var i = 0, j = 1; i < j; i++) {}', 'for (a in b) c;',
     'for (var a in b) c;', 'for (var a = 1 in b) c;', 'while (a) b;', 'while (a) ;', 'do a; while (b);', 'do {} while (b)', 'do ; while (0)',
@@ -743,6 +730,8 @@ def program_texts(ctx, label, n_g1, n_gen):
     import genjs
     rng = ctx.sub_rng('programs:' + label)
     texts = list(FIXED)
+    # the edge-operand forms: all of them in the thorough tier, a seeded sample of a third otherwise
+    texts += EDGE if ctx.tier == 'thorough' else rng.sample(EDGE, len(EDGE) // 3)
     for e in corpus.extra(ctx.pid):
         texts.append(e['text'] if isinstance(e, dict) else e)
     g1 = corpus.g1_valid()
@@ -780,13 +769,13 @@ def classes_of(r):
         from parts import kfclass
         from checks.C03 import tokenize_rough
         cls |= set(kfclass.classes(tokenize_rough(r.text)))
-    # when only calmjs's OWN re-reading of the output fails (P1/P2, M1/M2) while the reference parser reads the output as
-    # the right program, the failure is a deviation of the parser on the output text: its C03 classes apply to the output
     codes = set(p[0] for p in r.problems)
-    if codes and codes <= {'P1', 'P2', 'M1', 'M2'} and r.out:
+    if r.out and codes and codes <= {'P1', 'P2', 'P5', 'M1', 'M2'}:
+        # the ES5 reference parser reads the OUTPUT as the original tree, only calmjs's own parser does not: a deviation
+        # of the parser on a valid text (its division/regex heuristic, C05 classes), not a printer defect
         from parts import kfclass
         from checks.C03 import tokenize_rough
-        cls |= set(kfclass.classes(tokenize_rough(r.out)))
+        cls |= set(kfclass.classes(tokenize_rough(r.out))) & {'KF-05a', 'KF-05b', 'KF-05c'}
     return cls
 
 
